@@ -64,6 +64,7 @@ package pogreb
 //@ func (it *bucketIterator) next() (b bucketHandle, err error) [C01,C11]
 //@   requires iter: it.off == 0 || (it.f != nil && fileInv(it.f) && it.off >= 0 && it.off <= 0x1000000000000)
 //@   ensures done: old(it.off) == 0 ==> err == ErrIterationDone
+//@   ensures done-empty: err != nil ==> b.file == nil
 //@   ensures notdone: old(it.off) != 0 ==> err != ErrIterationDone
 //@   ensures failed: err != nil ==> it.off == old(it.off) && it.f == old(it.f)
 //@   ensures bucket: err == nil ==> b.file == old(it.f) && b.offset == old(it.off) && b.offset + 512 <= fLen[fidOf[b.file.File]]
